@@ -368,15 +368,25 @@ class Package:
             return None
         found: List[Unit] = []
         for call in ast.walk(m.units[uqual].node):
-            if isinstance(call, ast.Call) and isinstance(call.func, ast.Name):
+            if not isinstance(call, ast.Call):
+                continue
+            cands: List[Unit] = []
+            if isinstance(call.func, ast.Name):
                 res = self.resolve_global(m, call.func.id)
                 if res.kind == "lib":
                     u = self.lib_unit(res.qual)
-                    if u is not None and u.kind == kind and u.module is m and u.parent is None and u.cls is None \
-                            and u.qualname.startswith("_") or (u is not None and u.kind == kind and u.module is m
-                                                                and not self._is_public(u)):
-                        if u not in found:
-                            found.append(u)
+                    if u is not None:
+                        cands.append(u)
+            elif isinstance(call.func, ast.Attribute) and call.func.attr.startswith("_") \
+                    and not call.func.attr.endswith("__"):
+                # the helper became a (static/class) method: ``self._helper(..)`` / ``Cls._helper(..)``
+                cands += [u for u in m.units.values() if u.cls is not None and u.parent is None
+                          and u.qualname.rsplit(".", 1)[-1] == call.func.attr]
+            for u in cands:
+                if u.kind == kind and u.module is m and u.parent is None and not u.is_overload() \
+                        and (u.qualname.rsplit(".", 1)[-1].startswith("_") or not self._is_public(u)):
+                    if u not in found:
+                        found.append(u)
         found.sort(key=lambda u: u.lineno)
         if index < len(found):
             return found[index]
